@@ -13,6 +13,7 @@ import DeapModel.Lemmas.C06Wheel
 import DeapModel.Lemmas.C06Lex
 import DeapModel.Lemmas.C06Dcd
 import DeapModel.Lemmas.C06Double
+import DeapModel.Lemmas.C06Hist
 
 set_option linter.unusedSectionVars false
 set_option linter.unusedSimpArgs false
@@ -872,5 +873,150 @@ example : [2, 0, 3, 1].Perm (List.range 4) ∧ (4 : ℕ) ∣ 4 := by decide
 example : selTournamentDCD [⟨[1], 0, 0⟩, ⟨[2], 0, 0⟩, ⟨[1], 0, 1⟩, ⟨[0], 0, 0⟩] 4
     [Draw.sample [0, 1, 2, 3], Draw.sample [2, 0, 3, 1]] = some ([1, 2, 2, 1], []) := by
   decide
+
+/-! ### Populations with repeated object references
+
+A population is a list of positions; two positions may hold the very same object (a mating pool made by a
+selector with replacement).  Nothing above assumes the entries of `pop` distinct: every theorem is about
+positions.  What identity (`is`) can observe of an object is the set `obj` of positions holding it; the two
+theorems below state the roulette and universal-sampling clauses for such a set — every position keeps its own
+sector of the wheel, and the total is taken over positions, not over distinct objects. -/
+
+/-- Roulette over positions: the draw `r` returns a position of `obj` iff it falls in the sector of one of the
+positions of `obj` (each of length `fⱼ/S`, `S` the total over all positions). -/
+theorem roulette_shares_positions (w : List Rat) (pop : Pop) (k : Nat) (t t' : Tape) (res : List Nat)
+    (fs : List Rat) (hfs : firstVals w pop = some fs) (hne : pop ≠ []) (hpos : ∀ f ∈ fs, 0 < f)
+    (h : selRoulette w pop k t = some (res, t')) (obj : List Nat) :
+    ∃ rs : List Rat, t = rs.map Draw.random ++ t' ∧ rs.length = k ∧
+      List.Forall₂ (fun r i => i < pop.length ∧
+        (i ∈ obj ↔ ∃ j ∈ obj, ∃ pre post,
+          sortedDesc (fitLt pop) (List.range pop.length) = pre ++ j :: post ∧
+          sumOn fs pre / fs.sum ≤ r ∧ r < (sumOn fs pre + fs.getD j 0) / fs.sum)) rs res := by
+  obtain ⟨rs, ht, hlen, hall⟩ := roulette_share w pop k t t' res fs hfs hne hpos h
+  refine ⟨rs, ht, hlen, hall.imp ?_⟩
+  intro r i hri
+  obtain ⟨_, _, hi, hiff⟩ := hri
+  refine ⟨hi, ?_, ?_⟩
+  · intro hio
+    obtain ⟨pre, post, hpp⟩ := List.append_of_mem ((mem_sortedDesc_range pop _ i).2 hi)
+    exact ⟨i, hio, pre, post, hpp, (hiff i pre post hpp).1 rfl⟩
+  · rintro ⟨j, hj, pre, post, hpp, hr⟩
+    rw [(hiff j pre post hpp).2 hr]
+    exact hj
+
+/-- A wheel with the same object at positions 0 and 2 (equal entries, fitnesses 1, 2, 1: total 4). -/
+example : ([⟨[1], 0, 0⟩, ⟨[2], 0, 0⟩, ⟨[1], 0, 0⟩] : Pop) ≠ [] ∧ (∀ f ∈ [(1 : Rat), 2, 1], 0 < f) := by
+  refine ⟨by simp, by norm_num⟩
+
+/-- Universal sampling over positions: the positions `obj` of one object are returned, together, between the
+sum of the floors and the sum of the ceilings of `k·fᵢ/S` (each position `⌊·⌋` or `⌈·⌉` times, `sus_counts`);
+for a duplicate-free `obj` that sum is the number of returned elements lying in `obj`. -/
+theorem sus_counts_positions (w : List Rat) (pop : Pop) (k : Nat) (t t' : Tape) (res : List Nat) (fs : List Rat)
+    (r : Rat) (hfs : firstVals w pop = some fs) (hpos : ∀ f ∈ fs, 0 < f) (hk : 0 < k) (hr : 0 < r)
+    (h : selSUS w pop k (Draw.random r :: t) = some (res, t')) (obj : List Nat)
+    (hobj : ∀ i ∈ obj, i < pop.length) :
+    (obj.map (fun i => ⌊(k : ℚ) * fs.getD i 0 / fs.sum⌋)).sum ≤ (obj.map (fun i => ((res.count i : ℕ) : ℤ))).sum ∧
+    (obj.map (fun i => ((res.count i : ℕ) : ℤ))).sum ≤ (obj.map (fun i => ⌈(k : ℚ) * fs.getD i 0 / fs.sum⌉)).sum ∧
+    (obj.Nodup → (obj.map (fun i => ((res.count i : ℕ) : ℤ))).sum =
+      ((res.countP (fun x => decide (x ∈ obj)) : ℕ) : ℤ)) := by
+  refine ⟨?_, ?_, ?_⟩
+  · induction obj with
+    | nil => simp
+    | cons a l ih =>
+      have h1 := sus_counts w pop k t t' res fs r hfs hpos hk hr h a (hobj a (by simp))
+      have h2 := ih (fun i hi => hobj i (by simp [hi]))
+      have h3 := Int.floor_le_ceil ((k : ℚ) * fs.getD a 0 / fs.sum)
+      simp only [List.map_cons, List.sum_cons]
+      rcases h1 with h1 | h1 <;> omega
+  · induction obj with
+    | nil => simp
+    | cons a l ih =>
+      have h1 := sus_counts w pop k t t' res fs r hfs hpos hk hr h a (hobj a (by simp))
+      have h2 := ih (fun i hi => hobj i (by simp [hi]))
+      have h3 := Int.floor_le_ceil ((k : ℚ) * fs.getD a 0 / fs.sum)
+      simp only [List.map_cons, List.sum_cons]
+      rcases h1 with h1 | h1 <;> omega
+  · intro hnd
+    rw [← sum_count_eq_countP obj res hnd]
+    clear hnd hobj
+    induction obj with
+    | nil => simp
+    | cons a l ih => simp only [List.map_cons, List.sum_cons, Nat.cast_add, ih]
+
+example : (∀ f ∈ [(1 : Rat), 2, 1], 0 < f) ∧ (∀ i ∈ [0, 2], i < 3) ∧ [0, 2].Nodup := by
+  refine ⟨by norm_num, by decide, by decide⟩
+
+/-! ### Sessions: a selector keeps nothing between calls
+
+`Core/SelectionHist.lean`: a session is a list of class statements and selector calls, one tape threaded through
+all of them; a call reads the weights its population's class resolves to *now* (MRO lookup) and nothing else of
+the world. -/
+
+/-- A call made after any session `hist` gives exactly what the same call gives when it is the first thing ever
+done (in the initial world `tbl`), on the tape the session left: earlier selector calls — on the same or on other
+populations, classes (base or derived, weights inherited or overridden, in any order of first use), parameters —
+and later class statements change neither its result nor the world it leaves. -/
+theorem sel_history_independent (tbl : Fitness.ClassTable Rat) (hwf : C01.TableWF tbl) (hist : List Event)
+    (cls : Nat) (hc : cls < tbl.length) (pop : Pop) (sel : Sel) (t t1 t' : Tape)
+    (tbl1 tbl' : Fitness.ClassTable Rat) (outs1 outs : List (List Nat))
+    (hh : runHistory tbl hist t = some (tbl1, outs1, t1)) :
+    runHistory tbl (hist ++ [Event.call cls pop sel]) t = some (tbl', outs, t') ↔
+      ∃ r, runEvent tbl (Event.call cls pop sel) t1 = some (tbl, some r, t') ∧
+        outs = outs1 ++ [r] ∧ tbl' = tbl1 := by
+  have htab := runHistory_table tbl hist t t1 tbl1 outs1 hh
+  have hlw : Fitness.lookupWeights tbl1 cls = Fitness.lookupWeights tbl cls := by
+    rw [htab]; exact C01.lookupWeights_append tbl _ hwf cls hc
+  rw [runHistory_append, hh]
+  simp only [runHistory, runEvent, hlw]
+  cases hl : Fitness.lookupWeights tbl cls with
+  | none => simp
+  | some wts =>
+    simp only
+    cases hs : runSel wts pop sel t1 with
+    | none => simp
+    | some x =>
+      obtain ⟨r, tx⟩ := x
+      constructor
+      · intro h1
+        simp only [Option.some.injEq, Prod.mk.injEq] at h1
+        obtain ⟨h1, h2, h3⟩ := h1
+        exact ⟨r, by rw [h3], h2.symm, h1.symm⟩
+      · rintro ⟨r', h1, ho, htb⟩
+        simp only [Option.some.injEq, Prod.mk.injEq, true_and] at h1
+        obtain ⟨hr', ht'⟩ := h1
+        subst hr'
+        rw [ho, htb, ht']
+
+/-- The result of a call is a function of the weights of the population's class, the positions of the population
+passed now, the parameters and the tape: the only thing read of the world is `lookupWeights`. -/
+theorem sel_reads_weights_only (tbl tbl2 : Fitness.ClassTable Rat) (c c2 : Nat) (pop : Pop) (sel : Sel) (t : Tape)
+    (hw : Fitness.lookupWeights tbl c = Fitness.lookupWeights tbl2 c2) :
+    (runEvent tbl (Event.call c pop sel) t).map (fun x => x.2) =
+      (runEvent tbl2 (Event.call c2 pop sel) t).map (fun x => x.2) := by
+  simp only [runEvent, hw]
+  cases Fitness.lookupWeights tbl2 c2 with
+  | none => rfl
+  | some w =>
+    simp only
+    cases runSel w pop sel t with
+    | none => rfl
+    | some x => rfl
+
+/-- A class derived from a maximising class with its own, minimising weights; lexicase on the base class first,
+then on the derived class: each call follows the weights of its own class. -/
+example : runHistory [] [Event.defclass ⟨some [1, 1], none⟩, Event.defclass ⟨some [-1, -1], some 0⟩,
+      Event.call 0 [⟨[1, 0], 0, 0⟩, ⟨[2, 0], 0, 0⟩] (Sel.lex Rule.exact 1),
+      Event.call 1 [⟨[-1, 0], 0, 0⟩, ⟨[-2, 0], 0, 0⟩] (Sel.lex Rule.exact 1)]
+    [Draw.shuffle [0, 1], Draw.choice 0, Draw.shuffle [0, 1], Draw.choice 0]
+    = some ([⟨some [1, 1], none⟩, ⟨some [-1, -1], some 0⟩], [[1], [0]], []) := by
+  simp [runHistory, runEvent, Fitness.defClass, Fitness.lookupWeights, Fitness.mro, Fitness.mroFuel, runSel,
+    selLexicaseWith, Selection.repeatM, lexStep, values, popShuffle, List.range, List.range.loop,
+    List.isPerm, lexLoop, filterCase, valAt, listMax, listMin, popChoice]
+
+example : C01.TableWF ([⟨some [1, 1], none⟩, ⟨some [-1, -1], some 0⟩] : Fitness.ClassTable Rat) ∧
+    (1 : Nat) < ([⟨some [1, 1], none⟩, ⟨some [-1, -1], some 0⟩] : Fitness.ClassTable Rat).length := by
+  refine ⟨?_, by decide⟩
+  exact C01.tableWF_append _ _ (C01.tableWF_append _ _ C01.tableWF_nil (by intro p hp; cases hp))
+    (by intro p hp; cases hp; decide)
 
 end C06
